@@ -370,7 +370,7 @@ def run_one(ch, env):
                 def pre():
                     okw = {} if toast_mode else {"start": 2}
                     return toasty.tile_fits(col.paths, out_dir=out, override=True, parallel=workers,
-                                            tiling_method=TilingMethod.TAN if toast_mode else TilingMethod.TOAST, **okw)
+                                            tiling_method=TilingMethod.TAN if toast_mode else TilingMethod.TOAST, **dict(okw, **fitsgen.load_kwargs(col)))
 
                 under_sim(pre, "tile_fits with the other tiling method into the same directory (pre-history)")
                 if state["violation"] or state["skip"]:
@@ -394,7 +394,7 @@ def run_one(ch, env):
 
                 def call():
                     return toasty.tile_fits(col.paths, out_dir=None if default_out else out, override=override, parallel=workers,
-                                            tiling_method=TilingMethod.TOAST if toast_mode else TilingMethod.TAN, **kw)
+                                            tiling_method=TilingMethod.TOAST if toast_mode else TilingMethod.TAN, **dict(kw, **fitsgen.load_kwargs(col)))
 
                 r = under_sim(call, label, first=(k == 0))
                 if state["violation"] or state["skip"]:
